@@ -35,7 +35,7 @@ def quiet():
 
 PREIMPORT = [
     "chmpy", "chmpy.crystal", "chmpy.core.dimer", "chmpy.ext.charges", "chmpy.ext.vasp", "chmpy.fmt.shelx",
-    "chmpy.fmt.vasp", "chmpy.fmt.cif", "chmpy.fmt.gulp", "chmpy.fmt.crystal17", "chmpy.fmt.xtb", "chmpy.shape", "chmpy.crystal.sfac", "scipy.sparse.csgraph",
+    "chmpy.fmt.vasp", "chmpy.fmt.cif", "chmpy.fmt.gulp", "chmpy.fmt.crystal17", "chmpy.fmt.xtb", "chmpy.shape", "chmpy.surface", "chmpy.util.mesh", "chmpy.util.color", "chmpy.subgraphs", "trimesh", "chmpy.crystal.sfac", "scipy.sparse.csgraph",
     "scipy.spatial.distance", "sim.gen", "sim.minimise",
 ]  # fmt: skip
 
